@@ -96,6 +96,7 @@ type Record struct {
 	RetCP  bool     `json:"ret_cp"` // the returned checkpoint is the served body's size and root
 	BaseOK bool     `json:"base_ok"`
 	Panic  bool     `json:"panic"`
+	Warm   bool     `json:"warm_failed"` // httpcache: the untampered scan filling the cache did not complete
 	ErrMsg string   `json:"errmsg,omitempty"`
 	Objs   []string `json:"targets,omitempty"`
 }
